@@ -68,6 +68,15 @@ struct Orc {
 	was_conn: bool,
 	n_front: usize,
 	ended: bool,
+	/// tickets whose message has not been seen on the wire yet (the send task is FIFO)
+	unsent: std::collections::VecDeque<usize>,
+	/// ticket -> the id its call / subscribe request carried on the wire
+	wire_id: std::collections::BTreeMap<usize, serde_json::Value>,
+	resolved: std::collections::BTreeSet<usize>,
+	recv_shut: bool,
+	send_shut: bool,
+	/// a receive-side fault or a lethal text has been injected: the read task may be gone
+	read_dead: bool,
 }
 
 fn restart_cause(s: &str) -> Option<&str> {
@@ -76,6 +85,41 @@ fn restart_cause(s: &str) -> Option<&str> {
 
 fn is_fatal_class(c: &str) -> bool {
 	c == "unparseable" || c == "emptybatch" || c.starts_with("notpending:") || c.starts_with("invalid:")
+}
+
+/// `Some(id)` iff the text is, by the letter of JSON-RPC 2.0, one well-formed response object (the
+/// oracle's own strict reading: only the four known members, exactly one of result / error, a proper
+/// error object, no repeated member names)
+fn strict_response_id(text: &str) -> Option<serde_json::Value> {
+	let v: serde_json::Value = serde_json::from_str(text).ok()?;
+	let o = v.as_object()?;
+	for name in ["jsonrpc", "id", "result", "error"] {
+		if text.matches(&format!("\"{name}\"")).count() > 1 {
+			return None;
+		}
+	}
+	if o.keys().any(|k| !matches!(k.as_str(), "jsonrpc" | "id" | "result" | "error")) {
+		return None;
+	}
+	if o.get("jsonrpc").map(|j| j != "2.0").unwrap_or(false) {
+		return None;
+	}
+	match (o.get("result"), o.get("error")) {
+		(Some(_), None) => {}
+		(None, Some(e)) => {
+			let e = e.as_object()?;
+			if e.keys().any(|k| !matches!(k.as_str(), "code" | "message" | "data")) {
+				return None;
+			}
+			let c = e.get("code")?.as_i64()?;
+			if c < i32::MIN as i64 || c > i32::MAX as i64 || !e.get("message")?.is_string() {
+				return None;
+			}
+		}
+		_ => return None,
+	}
+	let id = o.get("id")?;
+	if id.is_u64() || id.is_string() { Some(id.clone()) } else { None }
 }
 
 impl Orc {
@@ -103,6 +147,48 @@ impl Orc {
 		let ticket = self.n_front;
 		if is_front {
 			self.n_front += 1;
+			self.unsent.push_back(ticket);
+		}
+		// ids as written on the wire (the internal unsubscribe requests belong to no ticket)
+		for wt in &obs.wires {
+			let v: serde_json::Value = serde_json::from_str(wt).map_err(|e| format!("the client wrote invalid JSON: {e}"))?;
+			if v.get("method").and_then(|m| m.as_str()) == Some("unsub") {
+				continue;
+			}
+			if let Some(t) = self.unsent.pop_front() {
+				if let Some(id) = v.get("id") {
+					self.wire_id.insert(t, id.clone());
+				}
+			}
+		}
+		// a response bearing the id of a waiting call / subscribe, read by a live read task while the
+		// send task is not held: that future resolves now (with a value or an error) — or the client
+		// disconnects now; it may never stay pending on a healthy connection
+		let is_delivery = matches!((w[1], w.get(2).copied()), ("deliver", _) | ("fault", Some("garbage")));
+		let answered_now: Option<usize> =
+			if is_delivery && !self.recv_shut && !self.send_shut && !self.read_dead && self.was_conn && !send_failed {
+				let text = String::from_utf8(unhex(w[w.len() - 1])).unwrap_or_default();
+				strict_response_id(&text)
+					.and_then(|id| self.wire_id.iter().find(|(t, wid)| **wid == id && !self.resolved.contains(t)).map(|(t, _)| *t))
+			} else {
+				None
+			};
+		for (k, _) in &obs.comps {
+			self.resolved.insert(*k);
+		}
+		match (w[1], w.get(2).copied(), w.get(3).copied()) {
+			("gate", Some("recv"), Some(st)) => self.recv_shut = st == "shut",
+			("gate", Some("send"), Some(st)) => self.send_shut = st == "shut",
+			("gate", Some("all"), Some(st)) => {
+				self.recv_shut = st == "shut";
+				self.send_shut = st == "shut";
+			}
+			("end", _, _) => {
+				self.recv_shut = false;
+				self.send_shut = false;
+			}
+			("fault", Some("recv_err" | "peer_close" | "garbage"), _) | ("deliverbytes", _, _) | ("deepdeliver", _, _) => self.read_dead = true,
+			_ => {}
 		}
 		match (w[1], w.get(2).copied()) {
 			("fault", Some("send_err")) => self.injected.push(format!("transport(mock:s{})", w[3])),
@@ -173,6 +259,14 @@ impl Orc {
 			if let Some(cs) = restart_cause(c) {
 				let cs = cs.to_string();
 				self.see_cause(&cs)?;
+			}
+		}
+		if let Some(t) = answered_now {
+			if !obs.comps.iter().any(|(k, _)| *k == t) && obs.conn {
+				return Err(format!(
+					"operation {t} was answered (a well-formed response bearing its id {} was read) but its future did not resolve and the client stays connected: nothing can resolve it any more, it outlives the request timeout",
+					self.wire_id[&t]
+				));
 			}
 		}
 		// a later operation fails at once with the cause
@@ -320,6 +414,13 @@ enum Item {
 	/// unsubscribe request); `ct call` if no subscription has been accepted
 	DropSub,
 	UnsubSub,
+	/// a pending subscribe is answered by a *success* response whose result is no subscription id
+	/// (object, array, bool, null, fraction, negative, too large): the subscribe must fail at once with
+	/// a parse error and the connection stays up; a subscribe is issued first if none is pending
+	OddSubAnswer(Option<u64>),
+	/// the unsubscribe request of a subscription that was let go is answered with an odd result / an
+	/// error object: nobody waits for it, nothing happens, the connection stays up
+	OddUnsubAnswer,
 	/// more notifications than the stream buffers: the subscription lags and the client closes it
 	/// (the send task writes the unsubscribe request)
 	Flood,
@@ -352,7 +453,12 @@ fn answer_text(rng: &mut Rng, o: &Open, str_ids: bool, subs: &mut Vec<String>) -
 		},
 		Open::Sub { id, .. } => {
 			if rng.chance(1, 6) {
-				format!("{{\"jsonrpc\":\"2.0\",\"id\":{},\"error\":{{\"code\":-32001,\"message\":\"refused\"}}}}", idj(*id, str_ids))
+				let data = *rng.pick(&["", ",\"data\":null", ",\"data\":{\"deep\":[[[{\"k\":[]}]]]}", ",\"data\":1e300", ",\"data\":\"S0\"", ",\"data\":[1,2,3]"]);
+				format!(
+					"{{\"jsonrpc\":\"2.0\",\"id\":{},\"error\":{{\"code\":{},\"message\":\"refused\"{data}}}}}",
+					idj(*id, str_ids),
+					*rng.pick(&["-32001", "0", "2147483647", "-2147483648"])
+				)
 			} else {
 				let sid = format!("S{id}");
 				subs.push(sid.clone());
@@ -372,11 +478,22 @@ fn answer_text(rng: &mut Rng, o: &Open, str_ids: bool, subs: &mut Vec<String>) -
 }
 
 fn noise_text(rng: &mut Rng, subs: &[String]) -> String {
-	match rng.below(6) {
+	match rng.below(9) {
 		0 => "{\"jsonrpc\":\"2.0\",\"method\":\"other\",\"params\":[1,2]}".into(),
 		1 => "{\"jsonrpc\":\"2.0\",\"method\":\"nparams\"}".into(),
 		2 => "{\"jsonrpc\":\"2.0\",\"method\":\"sub\",\"params\":{\"subscription\":18446744073709551615,\"result\":1}}".into(),
 		3 => "[{\"jsonrpc\":\"2.0\",\"method\":\"other\",\"params\":null},{\"jsonrpc\":\"2.0\",\"method\":\"x\"}]".into(),
+		// a `subscription` member that is no subscription id: read as a plain notification nobody listens to
+		4 => {
+			let odd = *rng.pick(&["{\"x\":1}", "[1]", "true", "null", "1.5", "-1", "18446744073709551616", "[[[[]]]]"]);
+			let key = *rng.pick(&["result", "error"]);
+			format!("{{\"jsonrpc\":\"2.0\",\"method\":\"sub\",\"params\":{{\"subscription\":{odd},\"{key}\":1}}}}")
+		}
+		// unknown subscription ids, also in a close notification
+		5 => format!(
+			"{{\"jsonrpc\":\"2.0\",\"method\":\"sub\",\"params\":{{\"subscription\":{},\"error\":\"gone\"}}}}",
+			*rng.pick(&["0", "\"\"", "\"nobody\"", "9223372036854775808"])
+		),
 		_ => {
 			let s = if subs.is_empty() || rng.chance(1, 4) { "nobody".to_string() } else { rng.pick(subs).clone() };
 			format!("{{\"jsonrpc\":\"2.0\",\"method\":\"sub\",\"params\":{{\"subscription\":\"{s}\",\"result\":{}}}}}", rng.below(100))
@@ -511,6 +628,8 @@ fn render(rng: &mut Rng, out: &mut Out, caseno: u64, str_ids: bool, cap: u64, sc
 	let mut subs: Vec<String> = vec![];
 	// (ticket, subscription id) of the subscriptions the script believes accepted and not yet let go
 	let mut streams: Vec<(usize, String)> = vec![];
+	// request ids of the unsubscribe calls the client is believed to have sent (subscribe id + 1)
+	let mut unsubs: Vec<u64> = vec![];
 	let mut ticket = 0usize;
 	let mut fault_no = 0u64;
 	for it in script {
@@ -553,6 +672,43 @@ fn render(rng: &mut Rng, out: &mut Out, caseno: u64, str_ids: bool, cap: u64, sc
 					}
 				}
 			}
+			Item::OddSubAnswer(fixed) => {
+				let pos = open.iter().position(|o| matches!(o, Open::Sub { .. }));
+				let id = match pos {
+					Some(i) => match open.remove(i) {
+						Open::Sub { id, .. } => id,
+						_ => unreachable!(),
+					},
+					None => {
+						lines.push("ct subscribe".into());
+						next_id += 2;
+						ticket += 1;
+						next_id - 2
+					}
+				};
+				let k = fixed.unwrap_or_else(|| rng.below(12)) % 12;
+				out.count(&format!("server.subscribe_non_id_result.{k:02}"));
+				let odd = ["{\"x\":1}", "[1,2]", "true", "false", "null", "1.5", "-1", "1e300", "{\"a\":{\"b\":[{\"c\":null}]}}", "18446744073709551616", "[]", "-0"][k as usize];
+				lines.push(format!("ct deliver {}", hexs(&format!("{{\"jsonrpc\":\"2.0\",\"id\":{},\"result\":{odd}}}", idj(id, str_ids)))));
+			}
+			Item::OddUnsubAnswer => {
+				if unsubs.is_empty() {
+					lines.push(format!("ct deliver {}", hexs(&noise_text(rng, &subs))));
+				} else {
+					out.count("server.odd_unsubscribe_answer");
+					let i = rng.below(unsubs.len() as u64) as usize;
+					let uid = unsubs.remove(i);
+					let body = *rng.pick(&[
+						"\"result\":{\"a\":[1]}",
+						"\"result\":false",
+						"\"result\":null",
+						"\"result\":\"S0\"",
+						"\"error\":{\"code\":-32602,\"message\":\"no such subscription\",\"data\":[[]]}",
+						"\"error\":{\"code\":1,\"message\":\"\"}",
+					]);
+					lines.push(format!("ct deliver {}", hexs(&format!("{{\"jsonrpc\":\"2.0\",\"id\":{},{body}}}", idj(uid, str_ids)))));
+				}
+			}
 			Item::DropSub | Item::UnsubSub => {
 				if streams.is_empty() {
 					lines.push("ct call".into());
@@ -561,7 +717,10 @@ fn render(rng: &mut Rng, out: &mut Out, caseno: u64, str_ids: bool, cap: u64, sc
 					ticket += 1;
 				} else {
 					let i = rng.below(streams.len() as u64) as usize;
-					let (t, _) = streams.remove(i);
+					let (t, sid) = streams.remove(i);
+					if let Ok(n) = sid[1..].parse::<u64>() {
+						unsubs.push(n + 1);
+					}
 					let verb = if matches!(it, Item::DropSub) { "drop" } else { "unsub" };
 					out.count(&format!("consumer.{verb}"));
 					lines.push(format!("ct {verb} {t}"));
@@ -616,7 +775,7 @@ fn render(rng: &mut Rng, out: &mut Out, caseno: u64, str_ids: bool, cap: u64, sc
 
 /// does the send task write something to the transport for this item (if the script's belief holds)?
 fn writes(it: &Item) -> bool {
-	matches!(it, Item::Front(_) | Item::DropSub | Item::UnsubSub | Item::Flood)
+	matches!(it, Item::Front(_) | Item::DropSub | Item::UnsubSub | Item::Flood | Item::OddSubAnswer(_))
 }
 
 fn gen_base(rng: &mut Rng) -> Vec<Item> {
@@ -635,8 +794,33 @@ fn gen_base(rng: &mut Rng) -> Vec<Item> {
 			1 => Item::UnsubSub,
 			_ => Item::Flood,
 		});
+		if rng.chance(1, 2) {
+			v.push(Item::OddUnsubAnswer);
+		}
 		if rng.chance(1, 3) {
 			v.push(Item::Answer(true));
+		}
+		return v;
+	}
+	// a quarter: a subscribe answered by a success response with a non-id result, calls / a batch around it
+	if rng.chance(1, 2) {
+		let mut v = vec![];
+		for _ in 0..rng.below(3) {
+			v.push(match rng.below(3) {
+				0 => Item::Front(Front::Batch(2)),
+				_ => Item::Front(Front::Call),
+			});
+		}
+		v.push(Item::Front(Front::Subscribe));
+		if rng.chance(1, 2) {
+			v.push(Item::Front(Front::Call));
+		}
+		v.push(Item::OddSubAnswer(None));
+		if rng.chance(1, 2) {
+			v.push(Item::Answer(true));
+		}
+		if rng.chance(1, 3) {
+			v.push(Item::Noise);
 		}
 		return v;
 	}
@@ -732,9 +916,11 @@ fn random_history(rng: &mut Rng, out: &mut Out) -> Vec<Item> {
 			8..=10 => Item::Answer(rng.chance(1, 2)),
 			11 => Item::Noise,
 			12 => Item::Mutated,
-			13 => match rng.below(3) {
+			13 => match rng.below(5) {
 				0 => Item::DropSub,
 				1 => Item::UnsubSub,
+				2 => Item::OddSubAnswer(None),
+				3 => Item::OddUnsubAnswer,
 				_ => Item::Flood,
 			},
 			14 => {
@@ -863,6 +1049,56 @@ fn unsub_write_histories() -> Vec<Vec<Item>> {
 	all
 }
 
+/// well-formed but unexpected replies that must NOT end the connection, with calls, a batch and other
+/// subscribes pending around them: every one of the 12 non-id results for a pending subscribe, odd
+/// answers to an unsubscribe request, refused subscribes with odd error data, notifications with a
+/// non-id `subscription` member.  What was answered resolves at once; the rest is answered afterwards.
+fn odd_reply_histories() -> Vec<Vec<Item>> {
+	let mut all = vec![];
+	for k in 0..12u64 {
+		for shape in 0..3 {
+			let mut s = vec![];
+			match shape {
+				0 => {
+					s.push(Item::Front(Front::Call));
+					s.push(Item::Front(Front::Subscribe));
+					s.push(Item::Front(Front::Batch(2)));
+				}
+				1 => {
+					s.push(Item::Front(Front::Subscribe));
+					s.push(Item::Answer(true));
+					s.push(Item::Front(Front::Call));
+					s.push(Item::Front(Front::Subscribe));
+				}
+				_ => {
+					s.push(Item::Gate("recv", false));
+					s.push(Item::Front(Front::Subscribe));
+					s.push(Item::Front(Front::Call));
+				}
+			}
+			s.push(Item::OddSubAnswer(Some(k)));
+			if shape == 2 {
+				s.push(Item::Gate("recv", true));
+			}
+			s.push(Item::Noise);
+			s.push(Item::Front(Front::Call));
+			// the others are still answered normally: the connection is healthy
+			s.push(Item::Answer(true));
+			s.push(Item::Answer(true));
+			s.push(Item::Answer(true));
+			if shape == 1 {
+				s.push(Item::DropSub);
+				s.push(Item::OddUnsubAnswer);
+				s.push(Item::Front(Front::Call));
+				s.push(Item::Answer(true));
+			}
+			s.push(Item::End);
+			all.push(s);
+		}
+	}
+	all
+}
+
 /// histories outside the text model (invalid UTF-8, nesting beyond serde_json's recursion limit) or
 /// with a tiny front channel (callers block on it): oracle only
 fn unmodelled_history(rng: &mut Rng, out: &mut Out, caseno: u64) -> Vec<String> {
@@ -986,6 +1222,29 @@ fn rt_scenario(name: &'static str, timeout_ms: u64) -> RtResult {
 				s.exec_nobarrier("ct call");
 				expect = vec![("*", t + slack), ("E:restart(transport(mock:r1))", prompt)];
 			}
+			"subscribe_non_id_result" => {
+				// the connection stays healthy: the subscribe must fail at once, the call is answered later
+				s.exec_nobarrier("ct subscribe");
+				s.exec_nobarrier("ct call");
+				tokio::time::sleep(Duration::from_millis(20)).await;
+				s.inject(Ok(ReceivedMessage::Text("{\"jsonrpc\":\"2.0\",\"id\":0,\"result\":{\"x\":1}}".into())));
+				tokio::time::sleep(Duration::from_millis(20)).await;
+				s.inject(Ok(ReceivedMessage::Text("{\"jsonrpc\":\"2.0\",\"id\":2,\"result\":7}".into())));
+				expect = vec![("E:parse", prompt), ("ok:37", prompt)];
+			}
+			"subscribe_refused_and_odd_notifications" => {
+				s.exec_nobarrier("ct subscribe");
+				s.exec_nobarrier("ct subscribe");
+				tokio::time::sleep(Duration::from_millis(20)).await;
+				for t in [
+					"{\"jsonrpc\":\"2.0\",\"method\":\"sub\",\"params\":{\"subscription\":{\"x\":1},\"result\":1}}",
+					"{\"jsonrpc\":\"2.0\",\"id\":0,\"error\":{\"code\":-32001,\"message\":\"refused\",\"data\":{\"deep\":[[[]]]}}}",
+					"{\"jsonrpc\":\"2.0\",\"id\":2,\"result\":null}",
+				] {
+					s.inject(Ok(ReceivedMessage::Text(t.into())));
+				}
+				expect = vec![("err:-32001:72656675736564:7b2264656570223a5b5b5b5d5d5d7d", prompt), ("E:parse", prompt)];
+			}
 			_ => return Err(format!("unknown scenario {name}")),
 		}
 		let deadline = expect.iter().map(|e| e.1).max().unwrap_or(t) + Duration::from_millis(300);
@@ -1026,7 +1285,51 @@ fn rt_scenario(name: &'static str, timeout_ms: u64) -> RtResult {
 	RtResult { name, ok, worst_ms: worst }
 }
 
-const RT_SCENARIOS: [&str; 7] = [
+/// "EVERY front-end future resolves within the request timeout at the latest", on whole histories:
+/// the given cases run concurrently on one real-time runtime with a short request timeout; when a
+/// script is through (its `end` has opened every gate) everything still pending must resolve within
+/// request_timeout + slack — by an answer, by the disconnect cause or by the timer.
+fn rt_sweep(cases: &[Vec<String>], timeout_ms: u64) -> (usize, Result<(), String>) {
+	install_panic_hook();
+	let rt = tokio::runtime::Builder::new_current_thread().enable_time().build().unwrap();
+	let t = Duration::from_millis(timeout_ms);
+	let slack = Duration::from_millis(600);
+	let res = rt.block_on(async {
+		let runs = cases.iter().map(|case| async move {
+			let Some((str_ids, cap)) = parse_ct_header(&case[0]) else { return Ok(()) };
+			let mut s = FaultSession::new(str_ids, cap, FCAP, t);
+			for l in &case[1..] {
+				let o = s.exec(l).await;
+				if o.render().contains("E:placeholder") {
+					return Err(format!("{}: placeholder error in real time at `{}`", case[0], l));
+				}
+			}
+			let start = Instant::now();
+			while !s.unresolved().is_empty() && start.elapsed() < t + slack {
+				tokio::time::sleep(Duration::from_millis(10)).await;
+				let _ = s.harvest_now().await;
+			}
+			let left = s.unresolved();
+			if left.is_empty() {
+				Ok(())
+			} else {
+				Err(format!(
+					"{}: operations {left:?} are still pending {} ms after the end of the script (request timeout {timeout_ms} ms)",
+					case[0],
+					(t + slack).as_millis()
+				))
+			}
+		});
+		let all = futures_util::future::join_all(runs).await;
+		all.into_iter().find(|r| r.is_err()).unwrap_or(Ok(()))
+	});
+	let p = take_panics();
+	(cases.len(), if p.is_empty() { res } else { Err(format!("a task panicked during the real-time sweep: {}", p.join(" ; "))) })
+}
+
+const RT_SCENARIOS: [&str; 9] = [
+	"subscribe_non_id_result",
+	"subscribe_refused_and_odd_notifications",
 	"silent_server",
 	"send_stuck",
 	"front_channel_full",
@@ -1079,6 +1382,13 @@ fn main() {
 			let cap = rng.range(1, 3);
 			lines.extend(render(&mut rng, &mut out, caseno, str_ids, cap, &script));
 		}
+		for script in odd_reply_histories() {
+			caseno += 1;
+			out.count("odd_reply_history");
+			let str_ids = rng.chance(1, 4);
+			let cap = rng.range(1, 3);
+			lines.extend(render(&mut rng, &mut out, caseno, str_ids, cap, &script));
+		}
 		for i in 0..(n - systematic_budget) {
 			caseno += 1;
 			if i % 10 == 9 {
@@ -1121,6 +1431,23 @@ fn main() {
 				out.line(format!("rt {} {timeout_ms}", r.name), format!("#skip rt {}", if r.ok.is_ok() { "ok" } else { "late" }), r.ok, true);
 			}
 		}
+		// the same clause on whole histories (all odd-reply / unsubscribe-write families, a sample of the rest)
+		let all_cases: Vec<Vec<String>> = split_cases(&lines).into_iter().filter(|c| c[0].contains(" ctasks ")).collect();
+		let want = if thorough { 900 } else { 150 };
+		let special: Vec<Vec<String>> = all_cases.iter().filter(|c| c.iter().any(|l| l.contains("22726573756c74223a") && !l.contains("6d6574686f64"))).take(want / 2).cloned().collect();
+		let stride = (all_cases.len() / (want - special.len()).max(1)).max(1);
+		let mut picked = special;
+		picked.extend(all_cases.iter().step_by(stride).take(want - picked.len()).cloned());
+		let mut swept = 0;
+		for chunk in picked.chunks(150) {
+			let (n, r) = rt_sweep(chunk, timeout_ms);
+			swept += n;
+			out.count("rt.sweep_histories");
+			out.line(format!("rt sweep {n} {timeout_ms}"), format!("#skip rt sweep {}", if r.is_ok() { "ok" } else { "late" }), r, true);
+		}
+		out.notes.push(format!(
+			"wall-clock clause on whole histories (TEST): {swept} generated histories re-run concurrently in real time with request_timeout {timeout_ms} ms; after each script every front-end future had to resolve within request_timeout + 600 ms"
+		));
 		out.notes.push(format!(
 			"wall-clock clause is a TEST, not a theorem: {} real-time scenarios (request_timeout {timeout_ms} ms, unpaused clock) — silent server, send task stuck in the transport, front channel full, receive error / garbage / send error while calls, subscribes and batches are pending, transport close that never returns; {n_ok} passed; slowest resolution {worst} ms (bound: request_timeout + 600 ms slack; failures with a cause must arrive within {} ms)",
 			rounds * RT_SCENARIOS.len(),
